@@ -376,6 +376,9 @@ def rec_key(opname, famname, tb):
     tail = [f.name for f in frames[-40:]]
     if len(tail) >= 20 and sum(1 for n in tail[:-2] if n == "bv_width") >= len(tail) - 4 and "ite_then" in famname:
         return "recursion:fnode.bv_width:ite-then-chain"
+    files = [os.path.basename(f.filename) for f in frames[-40:]]
+    if len(tail) >= 20 and all(n == "walk" or n.startswith("walk_str_") or n.startswith("walk_int_to_str") for n in tail[:-1]) and files.count("printers.py") >= len(files) // 3:
+        return "recursion:hrprinter:string-operators"
     return "recursion:%s:%s:%s" % (opname, famname, tail[-1] if tail else "?")
 
 
@@ -718,6 +721,145 @@ def _measure_family(R, famname, fam, mode, n, ops, model, budget_end, only_fast=
     return times
 
 
+# ---------------------------------------------------------------------------------------------
+# Work accumulated ACROSS operations on one long-lived environment, with failing operations
+# interleaved (C20-F class): the family is built level by level, every k-th level a failing
+# operation of some kind is attempted and caught, and every 50 levels the persistent walkers
+# analyse the formula built so far.  Theorems asserted continuously: one type-checker callback
+# and <= 2*(1+arity) loop iterations per created node (C20_typecheck_at_creation); a persistent
+# memo only grows (C20_terminates_memo_correct), so repeated analyses of a growing formula cost
+# one callback per NEW node.
+# ---------------------------------------------------------------------------------------------
+
+FAIL_KINDS = ("And(i, b)", "Plus(i, b)", "BVAdd(v, i)", "Ite(i, b, b)", "Equals(i, v)", "LT(v, i)", "Not(i)", "op(x, wrong sort)", "same rejected construction again",
+              "substitute ill-typed", "simplify unsupported operator", "free_vars unsupported operator", "theory unsupported operator", "parse undefined symbol",
+              "create_node unknown type")
+_C20_NT = []
+
+
+def _failing_ops(env):
+    """kind -> thunk(x) that must raise, for the environment's own long-lived services."""
+    from pysmt.typing import BOOL, INT, REAL
+    import pysmt.operators as op
+    from pysmt.smtlib.parser import SmtLibParser
+    if not _C20_NT:
+        _C20_NT.append(op.new_node_type(node_str="C20_CUSTOM"))
+        _C20_NT.append(op.new_node_type(node_str="C20_UNKNOWN"))
+    NT, NT2 = _C20_NT
+    m, tm = env.formula_manager, env.type_manager
+    env.add_dynamic_walker_function(NT, type(env.stc), lambda self, formula, args, **kw: BOOL)
+    b, i, r, v = m.Symbol("fk_b", BOOL), m.Symbol("fk_i", INT), m.Symbol("fk_r", REAL), m.Symbol("fk_v", tm.BVType(8))
+    cn = m.create_node(node_type=NT, args=(b,))
+    small = m.And(b, m.Or(m.Not(b), cn))
+    parser = SmtLibParser(environment=env)
+
+    def wrong(x):
+        t = x.get_type()
+        return m.Plus(x, i) if t.is_bool_type() else m.And(x, b)
+    return {"And(i, b)": lambda x: m.And(i, b), "Plus(i, b)": lambda x: m.Plus(i, b), "BVAdd(v, i)": lambda x: m.BVAdd(v, i), "Ite(i, b, b)": lambda x: m.Ite(i, b, b),
+            "Equals(i, v)": lambda x: m.Equals(i, v), "LT(v, i)": lambda x: m.LT(v, i), "Not(i)": lambda x: m.Not(i), "op(x, wrong sort)": wrong,
+            "same rejected construction again": lambda x: m.Plus(i, b),
+            "substitute ill-typed": lambda x: env.substituter.substitute(m.And(b, m.Not(m.LT(i, m.Int(1)))), {i: r}),
+            "simplify unsupported operator": lambda x: env.simplifier.simplify(small),
+            "free_vars unsupported operator": lambda x: env.fvo.get_free_variables(small),
+            "theory unsupported operator": lambda x: env.theoryo.get_theory(small),
+            "parse undefined symbol": lambda x: parser.get_script(io.StringIO("(declare-fun fk_i () Int)\n(assert (< fk_i fk_undefined))\n")),
+            "create_node unknown type": lambda x: m.create_node(node_type=NT2, args=(b,))}
+
+
+def interleaved_build(R, famname, fam, depth, every):
+    """Returns nothing; violations go to R."""
+    from pysmt.environment import Environment
+    env = Environment()
+    mgr = env.formula_manager
+    fails = _failing_ops(env)
+    kinds = sorted(fails)
+    state = {"level": 0, "failed": 0, "not_failing": {}, "analyses": 0}
+    walkers = {"fvo": (env.fvo, lambda w, f: w.get_free_variables(f)), "theoryo": (env.theoryo, lambda w, f: w.get_theory(f)),
+               "qfo": (env.qfo, lambda w, f: w.is_qf(f)), "typeso": (env.typeso, lambda w, f: w.walk(f)),
+               "sizeo": (env.sizeo, lambda w, f: w.get_size(f, 0)), "simplifier": (env.simplifier, lambda w, f: w.simplify(f))}
+    taps = dict((nm, Tap(w, "size" if nm == "sizeo" else "plain", limit=None)) for nm, (w, _) in walkers.items())
+    sizes = dict((nm, len(getattr(env, nm).memoization)) for nm in ("stc", "fvo", "theoryo", "qfo", "typeso", "sizeo", "simplifier"))
+    name = "%s + a failing operation every %d level(s)" % (famname, every)
+    replay = "harness.c20.replay_interleaved(%r, %d, %d)" % (famname, depth, every)
+
+    def memo_watch(label):
+        for nm in sizes:
+            cur = len(getattr(env, nm).memoization)
+            if cur < sizes[nm] and ("memo", nm) not in state:
+                state[("memo", nm)] = True
+                R.violation({"kind": "history", "what": "the memo table of env.%s shrank from %d to %d entries across a failing operation (%s) while the family %s was being "
+                             "built: later work repeats earlier work (model: a persistent memo only grows, also across a call that raises)" % (nm, sizes[nm], cur, label, name),
+                             "repro": replay}, key="memo-shrinks:%s" % nm)
+            sizes[nm] = cur
+    orig_chain = fam["chain"]
+
+    def chain(m, x, l):
+        state["level"] += 1
+        lv = state["level"]
+        if lv % every == 0:
+            kind = kinds[(lv // every) % len(kinds)]
+            try:
+                fails[kind](x)
+                state["not_failing"][kind] = state["not_failing"].get(kind, 0) + 1
+            except RecursionError:
+                tb = sys.exc_info()[2]
+                state["failed"] += 1
+                if "rec" not in state:
+                    state["rec"] = True
+                    R.violation({"kind": "history", "what": "RecursionError (instead of the operation's own error) from the failing operation `%s` at level %d of family %s"
+                                 % (kind, lv, name), "repro": replay, "innermost_frames": [f.name for f in traceback.extract_tb(tb)[-6:]]},
+                                key=rec_key("interleaved:" + kind, famname, tb))
+            except WorkExceeded:
+                raise
+            except Exception:        # noqa: the failing operation, caught as any client would
+                state["failed"] += 1
+            memo_watch(kind)
+        if lv % 50 == 0:
+            state["analyses"] += 1
+            for nm, (w, call) in walkers.items():
+                if nm == "simplifier" and lv % 250:
+                    continue          # its callbacks may do O(size) work per node (n-ary flattening)
+                try:
+                    call(w, x)
+                except (NotImplementedError, AssertionError):
+                    pass
+        return orig_chain(m, x, l)
+    ifam = dict(fam)
+    ifam["chain"] = chain
+    n0 = len(mgr.formulae)
+    g = R.build_tapped(env, ifam, name, "chain", depth)
+    for t in taps.values():
+        t.remove()
+    if g is None:
+        return
+    created = len(mgr.formulae) - n0
+    R.counts.append(("interleaved", famname, depth, every))
+    distinct = distinct_subformulas(g)
+    for nm, t in taps.items():
+        calls = len(t.log)
+        bound = 2 * distinct + 64 * state["failed"] + 256
+        if calls > bound:
+            R.violation({"kind": "history", "what": "over the history (family %s, %d levels, %d failing operations caught, %d analyses of the growing formula) env.%s invoked its "
+                         "callbacks %d times for %d distinct nodes: earlier results are recomputed (a persistent memo must survive failing calls)"
+                         % (name, depth, state["failed"], state["analyses"], nm, calls, distinct), "repro": replay,
+                         "expected": "<= %d" % bound, "observed": calls}, key="cumulative:%s:%s" % (nm, famname))
+    R.acc[("interleaved", famname, every)] = (created, state["failed"])
+    if state["not_failing"]:
+        R.skip("interleaved: operation did not fail: %s" % sorted(state["not_failing"]))
+
+
+def replay_interleaved(famname, depth, every):
+    import warnings
+    warnings.simplefilter("ignore")
+    R = Runner("quick")
+    interleaved_build(R, famname, _families()[famname], depth, every)
+    for rep, key in R.viol:
+        print("VIOLATION (replayed) key=%s: %s" % (key, rep.get("what")))
+    print("violations: %d" % len(R.viol))
+    return 1 if R.viol else 0
+
+
 def growth_check(R, famname, mode, n1, n2, opnames):
     """Work inside the callbacks: structural accesses at size n2 against size n1.  Linear work
     doubles when the ladder doubles, quadratic quadruples; work that follows the tree expansion
@@ -828,6 +970,12 @@ def family_job(arg):
     times = measure_family(R, nm, fam, "chain", 1500, ops, False, budget_end)
     fast = set(k for k, v in times.items() if v < 0.12 and k not in QUADRATIC_TIME)
     measure_family(R, nm, fam, "chain", 20000, ops, False, budget_end, only_fast=True, fast_ops=fast)
+    # 4. the family built with failing operations interleaved (every level, every 2nd, every 7th)
+    for every in ((1, 7) if tier == "quick" and nm not in ("and", "plus", "bvadd", "ite_int", "store") else (1, 2, 7)):
+        if time.time() > budget_end:
+            R.skip("time budget: interleaved %s every %d not run" % (nm, every))
+            continue
+        interleaved_build(R, nm, fam, 1500 if tier == "quick" else 6000, every)
     if tier == "thorough" and nm in ("and", "not_and", "plus", "bvadd", "ite_int", "ite_bv_else", "store", "uf"):
         measure_family(R, nm, fam, "chain", 200000, ops, False, budget_end, only_fast=True,
                        fast_ops=fast & set(["free_vars", "qf", "types", "theory", "size_tree", "size_depth", "size_leaves", "atoms", "aig"]))
@@ -925,6 +1073,10 @@ def run(tier, only=None):
     chk.cov["skipped"] = R.skipped
     chk.cov["operations"] = ["typecheck-at-construction", "parse-back"] + [o[0] for o in ops] + ["get_logic"]
     chk.cov["families"] = names
+    chk.cov["interleaved"] = {"per_family": "built to depth %d with a failing operation every 1 / 2 / 7 levels and the persistent walkers (fvo, theoryo, qfo, typeso, sizeo, simplifier) "
+                              "analysing the growing formula every 50 levels" % (1500 if tier == "quick" else 6000), "failing_kinds": list(FAIL_KINDS),
+                              "asserted": "per created node: <= 1 type-checker callback and <= 2*(1+arity) iterations; memo tables never shrink across a failing operation; "
+                                          "per persistent walker: total callbacks <= 2 * distinct nodes + slack"}
     chk.cov["ladders"] = {"names": lnames, "sizes": [8, 16] if tier == "quick" else [8, 16, 20],
                           "measured": "callbacks, loop iterations, result size, and structural accesses to FNodes (node_type/args/arg) with the growth test 3*(n2/n1)^2"}
     chk.cov["towers"] = {"count": len(tnames), "periods": 3000 if tier == "quick" else 10000, "operations": list(TOWER_OPS), "names": tnames}
@@ -949,6 +1101,9 @@ def replay_one(famname, mode, n, opname):
     from pysmt.environment import Environment
     import warnings
     warnings.simplefilter("ignore")
+    if " + a failing operation every " in famname:
+        base, rest = famname.split(" + a failing operation every ")
+        return replay_interleaved(base, n, int(rest.split(" ")[0]))
     fams = dict(_families())
     fams.update(_ladders())
     fams.update(_towers())
